@@ -192,7 +192,11 @@ func replayNative(id string, spec *ReplaySpec, v *Violation, repo string) {
 			fmt.Fprintf(&sb, "\tverifModel[%q] = %s\n", k, v.Model[k])
 		}
 	}
-	if len(v.Schedule) > 0 {
+	isRace := v.Kind == "race"
+	if isRace {
+		sb.WriteString("\tverifFreeRun = true // threads run freely under go test -race\n")
+	}
+	if len(v.Schedule) > 0 && !isRace {
 		parts := make([]string, len(v.Schedule))
 		for i, s := range v.Schedule {
 			parts[i] = fmt.Sprint(s)
@@ -222,6 +226,9 @@ func replayNative(id string, spec *ReplaySpec, v *Violation, repo string) {
 	addRefPkgs(ov, spec.RefPkgs, repo)
 	// schedule replays: instrumented copies of the files whose atomics are scheduling points
 	for _, rel := range spec.Instrument {
+		if isRace {
+			break
+		}
 		src, err := os.ReadFile(filepath.Join(repo, rel))
 		if err != nil {
 			continue
@@ -239,8 +246,28 @@ func replayNative(id string, spec *ReplaySpec, v *Violation, repo string) {
 	ob, _ := json.Marshal(map[string]interface{}{"Replace": ov})
 	os.WriteFile(ovFile, ob, 0o644)
 	v.Replay = testFile
-	out, _ := runReplay(repo, spec, ovFile)
+	rs := spec
+	if isRace {
+		c := *spec
+		c.Flags = append(append([]string{}, spec.Flags...), "-race")
+		rs = &c
+	}
+	out, _ := runReplay(repo, rs, ovFile)
 	os.WriteFile(filepath.Join(d, base+".log"), []byte(out), 0o644)
+	if isRace {
+		// the happens-before analysis is confirmed by the Go race detector on the real build
+		file := v.Site
+		if i := strings.Index(file, ":"); i > 0 {
+			file = filepath.Base(file[:i])
+		}
+		if strings.Contains(out, "WARNING: DATA RACE") && strings.Contains(out, file+":") {
+			v.Status = "reproduced"
+		} else {
+			v.Status = "not-reproduced"
+			v.Note += " (go test -race reported no race; see " + filepath.Join(d, base+".log") + ")"
+		}
+		return
+	}
 	if strings.Contains(out, "VERIF-REPRODUCED") {
 		v.Status = "reproduced"
 	} else {
